@@ -528,7 +528,7 @@ def handleLogon (s : Sess) (m : InMsg) : Sess × Option LogonErr :=
   | (s, some r) => (s, some (.rej r))
   | (s, none) =>
     let resetStore := (if s.cfg.initiator then false else s.cfg.resetOnLogon) || (logonResetFlag m && !s.sentReset)
-    let s := if resetStore then s.storeReset else s
+    let s := if resetStore then dropAndReset s else s
     match verifySelect s m false true false with
     | (s, some r) => (s, some (.rej r))
     | (s, none) => logonFinish (logonReply s m (logonResetFlag m)) m
@@ -723,7 +723,7 @@ def connect (s : Sess) : Sess × String :=
     if !s.cfg.initiator then (s.setSt .logon, "ok")
     else
       let s := if s.cfg.refreshOnLogon then s.emit .refresh else s
-      let s := if s.cfg.resetOnLogon then s.storeReset else s
+      let s := if s.cfg.resetOnLogon then dropAndReset s else s
       let s := sendLogonInReplyTo s (shouldSendReset s)
       (s.setSt .logon, "ok")
 
